@@ -414,6 +414,11 @@ func genC09(rt *rapid.T) C09Case {
 		for i, k := range kinds {
 			if rapid.IntRange(0, 2).Draw(rt, "has-"+k) == 0 {
 				r := genOtherRec(rt, tk, k, rapid.IntRange(0, 2).Draw(rt, "collide") == 0)
+				if i >= 4 && rapid.IntRange(0, 4).Draw(rt, "ownsubj") == 0 {
+					// its own security context (kernel records of a compound event usually repeat the task's;
+					// here it differs, so every label can be traced)
+					r.Fields = append(r.Fields, kenc.P("subj", tk.s("au")+":"+tk.s("ar")+":"+tk.s("at")+":"+tk.s("as")+":"+tk.s("ac")))
+				}
 				if i >= 4 && rapid.IntRange(0, 3).Draw(rt, "syscallkey") == 0 {
 					// a field named like one of the SYSCALL record's own (only the SYSCALL record's item count
 					// may be dropped without a word)
